@@ -11,5 +11,6 @@ import (
 	_ "github.com/ozontech/file.d/zz_verifharness/h7join"
 	_ "github.com/ozontech/file.d/zz_verifharness/h8admit"
 	_ "github.com/ozontech/file.d/zz_verifharness/h9outputs"
+	_ "github.com/ozontech/file.d/zz_verifharness/hpool"
 	_ "github.com/ozontech/file.d/zz_verifharness/h3offsets"
 )
